@@ -9,6 +9,25 @@ Model side: MpfVerif.Model.BallLedger as a *monitor*: MPF's observable events ar
 Lean driver answers `ok <counts>` or `not-enabled`, and the counts are compared with the real ones after every step.
 Oracle (model independent): at every rest point device counts = physical truth, playfield count = loose balls, sums =
 known; never a count < 0 or > capacity; MPF never pulses a coil towards a device without room.
+
+Histories the random generator does not produce, and why that hides nothing: four classes of physically possible but
+ambiguous histories (a ball falling back after eject_timeout, a ball arriving after ball_missing_timeout, a ball entering
+a device during that device's own eject, a playfield switch hit by another ball while an ejected ball falls back) make
+MPF fire into a full device.  Each has ONE deterministic minimal witness (WITNESSES below) that runs first on every check
+and raises its own signature (listed in known_findings.json); the random stream stays restricted so that every *other*
+failure is a new finding and the check is deterministic.
+
+The `balls == -1` normalisation: BallCountHandler.end_eject() decrements counted_balls while BallDevice._state is still
+ball_left/failed_confirm; for non-trough devices the state only changes after `await counter.count_balls()`, i.e. up to
+exit_count_delay (0.5 s) later.  In that window the *property* BallDevice.balls (= counted_balls - 1 in those states)
+reads one too low, -1 for a device that has just ejected its only ball.  That IS an observable violation of "no count is
+ever negative" (any handler reading device.balls in the window sees it), so it has a witness + signature of its own
+(count-negative:balls-property-after-eject-success).  counted_balls, available_balls and playfield.balls are never
+affected and the value is exact again when the state changes, so for the *monitor* (which treats "eject finished" as one
+ledger transition) and for the bounds oracle of the random stream the observation is normalised to counted_balls/idle;
+every normalisation that hid a negative value is counted (evidence: balls_property_minus_one_normalisations).  The
+obvious one-line repair (set the state to idle right after end_eject(True)) breaks test_MultiballLock.test_multiple_eject,
+so it is recorded as a finding, not fixed.
 """
 from harness.common import leanproc, ballworld as bw
 from harness.common.shrink import ddmin
@@ -18,8 +37,8 @@ LEAN_MODULES = ["MpfVerif.Props.C04"]
 PROPS_FILE = "MpfVerif/Props/C04.lean"
 GEN = []
 MANIFEST = {
-    "text": "PARTIAL proof. Proved in Lean about the ball ledger (Model/BallLedger.lean: the bookkeeping protocol of MPF's ball devices at the granularity of its own accounting events - plan, ejectStart, ballLeft, confirm/lateConfirm, ejectFailedReturn/Stuck, enterExpected/Unexpected, pfCapture, lostEjected, lostIdle, incomingTimeout, newBallFound, broken - with the code's guards): for every interleaving of these transitions the available_balls claims sum to the number of balls known, device balls + playfield balls + balls in flight sum to the number known, 0 <= balls <= counted <= capacity for every device, and with one source per target the readiness guard never lets a coil fire towards a device whose room is already taken; with two sources the guard passes twice (witness theorem = known finding D16). NOT proved: that the ~2000 lines of asyncio coroutines only perform these transitions. That is tied by a refinement monitor on every run: the real devices run inside a physical-world simulator (slots, switches through process_switch, coil pulses intercepted, transit/settle times, eject outcomes ok/stuck/fallback/late/astray), every observed step must be an enabled ledger transition with the same resulting counts, and at every rest point the real counts are compared with the simulator's physical truth.",
-    "note": "Outside the model (named runtime behaviour): asyncio task interleaving inside one device, switch debounce and activity classification in switch_counter._run, timer expiry (the monitor is told which timeout fired), real switch bounce, jam switches, entrance-switch counters, mechanical/player-controlled ejects, ball search, confirm_eject_type switch/event. Topologies: trough->plunger->playfield + lock->playfield, and trough+lock->plunger (two sources). Trusted: Lean kernel + standard axioms; the hand-written ledger; harness/common/ballworld.py (world simulator + trace abstraction). Known finding: two sources, one free slot (fired-into-full-device:two-sources).",
+    "text": "PARTIAL proof. Proved in Lean about the ball ledger (Model/BallLedger.lean: the bookkeeping protocol of MPF's ball devices at the granularity of its own accounting events - plan, ejectStart, ballLeft, confirm/lateConfirm, ejectFailedReturn/Stuck, enterExpected/Unexpected, pfCapture, lostEjected, lostIdle, incomingTimeout, newBallFound, broken - with the code's guards): for every interleaving of these transitions the available_balls claims sum to the number of balls known, device balls + playfield balls + balls in flight sum to the number known, 0 <= balls <= counted <= capacity for every device, and for every configuration in which every device target has a single source (decidable predicate Cfg.singleSource) no reachable state enables a coil firing towards a device whose room is already taken (invariant heading = incoming + [source mid-fire] carried through all 23 transitions); with two sources the guard passes twice (witness theorem = known finding D16). NOT proved: that the ~2000 lines of asyncio coroutines only perform these transitions. That is tied by a refinement monitor on every run: the real devices run inside a physical-world simulator (slots, switches through process_switch, coil pulses intercepted, transit/settle times, eject outcomes ok/stuck/fallback/late/astray), every observed step must be an enabled ledger transition with the same resulting counts, and at every rest point the real counts are compared with the simulator's physical truth.",
+    "note": "Outside the model (named runtime behaviour): asyncio task interleaving inside one device, switch debounce and activity classification in switch_counter._run, timer expiry (the monitor is told which timeout fired), real switch bounce, jam switches, entrance-switch counters, mechanical/player-controlled ejects, ball search, confirm_eject_type switch/event. Topologies: trough->plunger->playfield + lock->playfield, and trough+lock->plunger (two sources). Trusted: Lean kernel + standard axioms; the hand-written ledger; harness/common/ballworld.py (world simulator + trace abstraction). Known findings, each with a deterministic witness history that runs on every check: two sources, one free slot (D16); ball falling back after eject_timeout; ball arriving after ball_missing_timeout; ball entering a device during its own eject taken for the returning ball; playfield switch hit by another ball credited to an eject whose ball falls back; BallDevice.balls reading -1 between end_eject and the state change.",
     "technique": "Lean theorems by induction over transition lists of a hand-written protocol model + runtime refinement monitor and physical-truth oracle on the real devices",
     "translated": False,
 }
@@ -206,6 +225,8 @@ def eval_case(ctx, case, model, focus):
     for k, v in res.hist.items():
         ctx.count(k, v)
     ctx.count("steps", res.steps)
+    ctx.notes["balls_property_minus_one_normalisations"] = ctx.notes.get("balls_property_minus_one_normalisations", 0) + \
+        res.hist.get("transient_balls_property_minus_one", 0)
     if model is not None:
         # one comparison per case: the whole observed history is an enabled ledger run with equal counts at every step
         ctx.compare(dict(case, what="monitor"), "refines" if res.mismatch is None else res.mismatch, "refines")
@@ -233,7 +254,7 @@ def run(ctx, focus="C04", ident=ID):
                 ctx.notes.setdefault("witnesses", {})[sig] = [f[0] for f in res.failures]
         else:
             eval_case(ctx, starved_case(), model, focus)
-        for i in range(ctx.n(600, 6000)):
+        for i in range(ctx.n(600 if focus == "C04" else 480, 6000)):
             eval_case(ctx, gen_case(ctx.rng("case", i), i, heavy=(focus == "C05")), model, focus)
             if len([f for f in ctx.failures if f["signature"] not in LISTED]) >= 3:
                 break                       # a violation is established; the first (shrunk) one is reported
